@@ -37,7 +37,7 @@ def graph_run(prop, tier, seed, module, mc_module, cfgs, required_tags, level_no
             # a larger model than TLC can enumerate: random behaviours (TLC simulation mode); the transitions seen form a graph
             # connected to the initial state, which is replayed like the exhaustive ones
             num, depth = (150, 14) if tier == "quick" else (1500, 16)
-            if "MC_Qos_" in cfg:
+            if "MC_Qos_" in cfg or "MC_WriterInst_" in cfg:
                 # every replayed transition runs real participants with discovery in the simulation: fewer behaviours
                 num, depth = (150, 14) if tier == "quick" else (400, 14)
             if "C20_walk" in cfg or "C23_walk" in cfg:
